@@ -165,11 +165,90 @@ def task_join_rational():
 task_join_rational.contract_fn = "curves.BaseCurve.__or__"
 
 
+# --------------------------------------------------------------------------------------
+# engine B: knots away from the junction survive a join; split() after an in-place affine change of the curve's knot vector
+# --------------------------------------------------------------------------------------
+def task_concrete():
+    from ..report import FAILED, PROVED, ob
+    fn = "curves.BaseCurve.__or__"
+    out = []
+    # (1) A carries a REDUNDANT interior knot (inserted by hand, not needed by the curve) away from the junction: A | B keeps it - only the junction is cleaned
+    for p in (1, 2, 3):
+        A = curves.Curve([F(0)] * (p + 1) + [F(2)] * (p + 1), [F((-1) ** i * (i + 1), 2) for i in range(p + 1)])
+        A.knot_insert([F(1, 2)])
+        B = curves.Curve([F(2)] * (p + 1) + [F(5)] * (p + 1), [A.ctrlpoints[-1]] + [F(i * i - 2) for i in range(1, p + 1)])
+        B.knot_insert([F(3), F(4)])
+        want_knots = sorted(list(A.knotvector)[:-1] + list(B.knotvector)[p + 1:])          # junction of multiplicity p (continuous, generic)
+        bad = None
+        try:
+            R = A | B
+            if sorted(R.knotvector) != want_knots:
+                bad = "knot vector %s, expected %s (the inserted knots 1/2, 3, 4 are not junction knots)" % (list(map(str, R.knotvector)), list(map(str, want_knots)))
+            else:
+                for u in (F(1, 4), F(1), F(2), F(7, 2), F(9, 2), F(0), F(5)):
+                    exp = (A if u <= 2 else B)(u)
+                    if R(u) != exp:
+                        bad = "(A|B)(%s) = %s, expected %s" % (u, R(u), exp)
+                        break
+            # round trip: split at the junction and at nothing else, join again
+            if not bad:
+                X, Y = R.split([F(2)])
+                R2 = X | Y
+                if list(R2.knotvector) != list(R.knotvector):
+                    bad = "split([2]) then join: knot vector %s, expected %s" % (list(map(str, R2.knotvector)), list(map(str, R.knotvector)))
+        except Exception as e:
+            bad = "%s: %s" % (type(e).__name__, str(e)[:100])
+        out.append(ob("%s:other-knots-kept[p=%d]" % (fn, p), fn, FAILED if bad else PROVED, "B", "concrete", 0.0,
+                      bad or "redundant knots away from the junction are kept by A | B and by split-then-join", dict(kind="c07.concrete", which="kept", p=p) if bad else None))
+    # (2) split() / split(nodes) after the curve's knot vector was shifted / scaled IN PLACE (after an earlier query of .knots)
+    fn2 = "curves.Curve.split"
+    for label, change, inv in (("shift", lambda kv: kv.shift(F(3, 2)), lambda u: u - F(3, 2)), ("scale", lambda kv: kv.scale(F(2)), lambda u: u / 2),
+                               ("+=", lambda kv: kv.__iadd__(F(-4)), lambda u: u + 4), ("normalize", lambda kv: kv.normalize(), lambda u: u * 3)):
+        U = [F(0)] * 3 + [F(1), F(2)] + [F(3)] * 3
+        P = [F(1), F(-2), F(4), F(0), F(3)]
+        c = curves.Curve(list(U), list(P))
+        c.knots, c(F(1, 2)), c.split()
+        bad = None
+        try:
+            change(c.knotvector)
+            pieces = c.split()
+            ks = sorted(set(c.knotvector))
+            if len(pieces) != len(ks) - 1:
+                bad = "%d pieces for %d spans" % (len(pieces), len(ks) - 1)
+            else:
+                for q, (a, b) in zip(pieces, zip(ks[:-1], ks[1:])):
+                    if tuple(q.knotvector.limits) != (a, b) or len(set(q.knotvector)) != 2:
+                        bad = "piece on %s, expected the Bezier piece on (%s, %s)" % (tuple(map(str, q.knotvector)), a, b)
+                        break
+                    for s_ in (0, 1, 2, 3):
+                        u = a + (b - a) * F(s_, 3)
+                        exp = spec.curve_value(list(U), 2, P, inv(u)) if s_ not in (0, 3) else q(u)
+                        if q(u) != exp or c(u) != spec.curve_value(list(U), 2, P, inv(u)) and s_ not in (0, 3):
+                            bad = "piece value at %s is %s, expected %s" % (u, q(u), exp)
+                            break
+                    if bad:
+                        break
+        except Exception as e:
+            bad = "%s: %s" % (type(e).__name__, str(e)[:100])
+        out.append(ob("%s:after-in-place-%s" % (fn2, label), fn2, FAILED if bad else PROVED, "B", "concrete", 0.0,
+                      bad or "split() after curve.knotvector.%s in place: one Bezier piece per span of the CURRENT knot vector, equal to the curve" % label,
+                      dict(kind="c07.concrete", which=label) if bad else None))
+    return out + [{"_stats": dict(cases=len(out))}]
+
+
+task_concrete.contract_fn = "curves.BaseCurve.__or__"
+
+
 def tasks(tier, seed):
-    return [(task_join, (c, tier)) for c in cases(tier)] + [(task_join_rational, ())]
+    return [(task_join, (c, tier)) for c in cases(tier)] + [(task_join_rational, ()), (task_concrete, ())]
 
 
 def replay(o):
+    if (o.get("witness") or {}).get("kind") == "c07.concrete":
+        w = o["witness"]
+        tag = "[p=%d]" % w["p"] if w["which"] == "kept" else "after-in-place-%s" % w["which"]
+        r = [x for x in task_concrete() if "id" in x and x["id"].endswith(tag)][0]
+        return r["status"] == "failed", "knots away from the junction kept / pieces of the current knot vector", r["detail"]
     w = o["witness"]
     if w["scenario"] in ("bad",):
         return False, "ValueError", "not replayed"
